@@ -1148,7 +1148,7 @@ class Gen:
         elif x < 0.45:
             o = {'op': 'query', 'r': r, 'm': 'contains'}
             if self.rng.random() < 0.5:
-                o['sub'] = self.substr(r, 0, 2)
+                o['sub'] = self.substr(r, 0, 2) if self.rng.random() < 0.85 else self.rng.choice(['\x1b[0m', '\x1b[1m' + self.substr(r, 1, 1), '\x1b[m'])
             else:
                 o['other'] = self.pick('SAP')
             self.do(o)
